@@ -10,7 +10,7 @@ MODS = [{"m2": "httpd:2.4", "m3": "perl:5.26:20180629", "m4": "django:1.6:201803
         {"m2": "a-b_c:f28", "m3": "x:1:2", "m4": "n.n:s-s:0:deadbeef"}]
 ARCH = [{"bin1": "x86_64", "bin2": "ppc64le", "src": "src", "unknown": "x86-64"},
         {"bin1": "noarch", "bin2": "s390x", "src": "src", "unknown": ""}]
-PATHS = {"rel1": "Server/x86_64/os/repodata/modules.yaml", "rel2": "mods/other.yaml", "abs": "/abs/modules.yaml", "empty": ""}
+PATHS = {"rel1": "Server/x86_64/os/repodata/modules.yaml", "rel2": "mods/other.yaml", "abs": "/abs/modules.yaml", "empty": "", "int": 5}
 RPMTOK = {"r1": "httpd-0:2.4.6-80.x86_64", "r2": "mod_ssl-1:2.4.6-80.x86_64"}
 SIZES = {"s1": 1234, "s2": (1 << 33) + 5}
 # "two": types deliberately NOT in alphabetical insertion order
@@ -56,7 +56,7 @@ def exp_files(flat, arch):
 
 
 def xf_path(tok):
-    return {"rel1": "Server/x86_64/os/GPL", "rel2": "Server/x86_64/osx/README", "abs": "/etc/passwd", "empty": ""}[tok]
+    return {"rel1": "Server/x86_64/os/GPL", "rel2": "Server/x86_64/osx/README", "abs": "/etc/passwd", "empty": "", "int": 5}[tok]
 
 
 def _new(cls):
